@@ -38,7 +38,14 @@ class Tag:
     """Semantics preserving wrapper (JIT decorator stand-in) that keeps the wrapped function reachable."""
     fault_at = None      # (counter list, k): raise on the k-th invocation of any wrapped function
 
+    wrap_fault_at = None  # (counter list, k): raise on the k-th *application* of the wrapper (decoration time)
+
     def __init__(self, f):
+        wf = Tag.wrap_fault_at
+        if wf is not None:
+            wf[0][0] += 1
+            if wf[0][0] == wf[1]:
+                raise WrapperFault('injected fault while wrapping')
         self.f = f
         self.__wrapped_by_verif__ = f
         self.__name__ = f.__name__
@@ -64,6 +71,9 @@ WORLDS = {
     # all 6 storage orders of one key set whose renderings (decimal 2,1,17 / hex 2,1,11) could collide in a name
     'perm5+w': dict(cfg={'p': 5, 'q': 0, 'r': 0}, wrapper=True, perm=True),
     'perm5': dict(cfg={'p': 5, 'q': 0, 'r': 0}, wrapper=False, perm=True),
+    # a registered function is redefined and registered again under the same name while another registered function calls it
+    'redef': dict(cfg={'p': 2, 'q': 0, 'r': 0}, wrapper=False, redef=True),
+    'redef+w': dict(cfg={'p': 2, 'q': 0, 'r': 0}, wrapper=True, redef=True),
 }
 PERMS = [(1, 2, 17), (1, 17, 2), (2, 1, 17), (2, 17, 1), (17, 1, 2), (17, 2, 1)]
 
@@ -122,11 +132,14 @@ def make_world(world_id):
     def h(a, b):
         return a * b - a
 
+    ctx['f_py'] = f
+    ctx['g_py'] = lambda a, b: ctx['f_py'](a, b) - b
     ctx['f'] = alg.register(f)
     ctx['sq'] = alg.register(sq)
     ctx['g'] = alg.register(g)
     ctx['hs'] = alg.register(symbolic=True)(h)
     ctx['_operands'] = ['x1', 'x2', 'x3', 'x4', 'x5', 'e', 'z', 's1', 's2', 'y']
+    ctx['_redef_world'] = bool(w.get('redef'))
     return ctx
 
 
@@ -153,6 +166,32 @@ SYMBOLS = {
     'mix': lambda c: c['x1'] * c['y'],
     'neg2': lambda c: -c['x2'],
 }
+def _redef(c):
+    """The user redefines f (same name, other body) and registers it again."""
+    def f(a, b):
+        return a * b - a - a
+    c['f_py'] = f
+    c['f'] = c['alg'].register(f)
+
+    def g(a, b):                      # dependents are registered again as well (a compiled function keeps its callees)
+        return c['f'](a, b) - b
+    c['g'] = c['alg'].register(g)
+    return None
+
+
+SYMBOLS['redef'] = _redef
+REDEF_ALPHA = ['f2', 'g2', 'redef', 'gp2', 'f1']
+# symbols whose expected outcome is the direct evaluation of the plain python function in the *current* world
+DIRECT = {'f2': lambda c: c['f_py'](c['x2'], c['e']), 'f1': lambda c: c['f_py'](c['x1'], c['e']), 'g2': lambda c: c['g_py'](c['x2'], c['e'])}
+
+
+def expected(name, ctx, fresh):
+    if ctx.get('_redef_world') and name in DIRECT:
+        from ..explore import outcome
+        return outcome(DIRECT[name], ctx, normalise)
+    return fresh[name]
+
+
 for _i in range(6):
     SYMBOLS[f'pg{_i}'] = (lambda i: lambda c: c[f'q{i}'] * c['e'])(_i)
     SYMBOLS[f'pf{_i}'] = (lambda i: lambda c: c['f'](c[f'q{i}'], c['e']))(_i)
@@ -167,6 +206,8 @@ def alphabet(world_id):
     tier = world_id.split('|')[1] if '|' in world_id else _tier[0]
     if WORLDS[_wid(world_id)].get('perm'):
         return {n: SYMBOLS[n] for n in PERM_ALPHA}
+    if WORLDS[_wid(world_id)].get('redef'):
+        return {n: SYMBOLS[n] for n in REDEF_ALPHA}
     return {n: SYMBOLS[n] for n in _ALPHA[tier]}
 
 
@@ -215,7 +256,7 @@ def abstraction(ctx):
             ents.append((nm, kin, tuple(kout), code_digest(fn)))
     ns = [(k, code_digest(v)) for k, v in alg.numspace.items() if k != '__builtins__']
     cached = [(n, code_digest(ctx[n].__dict__['_callable'][1])) for n in ctx['_operands'] if '_callable' in ctx[n].__dict__]
-    return (tuple(sorted(ents)), tuple(sorted(ns)), tuple(sorted(cached)))
+    return (tuple(sorted(ents)), tuple(sorted(ns)), tuple(sorted(cached)), code_digest(ctx['f_py']) if 'f_py' in ctx else '')
 
 
 def explore_expand(task):
@@ -275,7 +316,10 @@ def fault_task(task):
     for name, fn in alpha.items():
         ctx = make_world(world_id)
         counter = [0]
-        Tag.fault_at = (counter, k)
+        if k > 0:
+            Tag.fault_at = (counter, k)
+        else:
+            Tag.wrap_fault_at = (counter, -k)
         faulted = False
         try:
             for sym in hist:
@@ -287,6 +331,7 @@ def fault_task(task):
                     pass
         finally:
             Tag.fault_at = None
+            Tag.wrap_fault_at = None
         if not faulted:
             recs.append((name, None, False))
             continue
@@ -347,14 +392,14 @@ def drive(ctx):
             ctx.capped.append(f'bfs[{world_id}]: {r["capped"]}')
         samples.append({'world': world_id, 'longest_shortest_history': list(r['sample_path'])})
         # wrapper fault menu
-        if WORLDS[_wid(world_id)]['wrapper'] and not WORLDS[_wid(world_id)].get('perm'):
+        if WORLDS[_wid(world_id)]['wrapper'] and not WORLDS[_wid(world_id)].get('perm') and not WORLDS[_wid(world_id)].get('redef'):
             from itertools import product
             maxk, maxlen = (2, 2) if tier == 'quick' else (4, 3)
             names = list(alphabet(world_id))
             hists = [h for n in range(1, maxlen + 1) for h in product(names, repeat=n)]
-            tasks = [(world_id, h, k, r['fresh']) for h in hists for k in range(1, maxk + 1)]
+            tasks = [(world_id, h, k, r['fresh']) for h in hists for k in list(range(1, maxk + 1)) + list(range(-1, -maxk - 1, -1))]
             if tier == 'thorough':
-                tasks = [t for t in tasks if len(t[1]) < 3 or t[2] <= 2]
+                tasks = [t for t in tasks if len(t[1]) < 3 or abs(t[2]) <= 2]
             nf = 0
             for (wid, h, k, _), recs in zip(tasks, ctx.map('fault_task', tasks)):
                 for name, prob, faulted in recs:
@@ -364,7 +409,7 @@ def drive(ctx):
                     if prob:
                         res.violate(violation(cause(wid, h + (name,), f'fault{k}:' + prob[0]), f'world {wid}: wrapper call #{k} raised during {list(h)}; '
                                               f'afterwards {name} differs from fresh', {'world': wid, 'history': list(h), 'fault_k': k, 'then': name}, prob[1], prob[2]))
-            res.extra[f'faults[{world_id}]'] = {'histories': len(hists), 'fault_points_k': maxk, 'faulted_executions_checked': nf}
+            res.extra[f'faults[{world_id}]'] = {'histories': len(hists), 'fault_points_k': maxk, 'kinds': 'k-th call of a wrapped function raises; k-th application of the wrapper raises', 'faulted_executions_checked': nf}
     res.nontrivial = res.states
     res.samples = samples[:3]
     # concurrent part
